@@ -42,7 +42,10 @@ def gen_commands(rnd, n, idx):
         if rnd.random() < 0.15:
             params = [(p[0], p[1], p[2], p[3]) for p in params]
         # the command itself may be written as a raw identifier (r#name is the identifier `name`)
-        cmds.append({"name": "cmd_%d_%d" % (idx, c), "raw": rnd.random() < 0.2, "params": params, "mut": [rnd.random() < 0.15 for _ in params]})
+        # the command macro's own argument-case option: #[tauri::command(rename_all = "snake_case")] makes Tauri read snake_case keys
+        macro_case = rnd.choice([None, None, None, "snake_case", "snake_case", "camelCase"])
+        cmds.append({"name": "cmd_%d_%d" % (idx, c), "raw": rnd.random() < 0.2, "params": params, "mut": [rnd.random() < 0.15 for _ in params],
+                     "macro_case": macro_case, "macro_form": rnd.randrange(3)})
     return cmds
 
 
@@ -52,7 +55,10 @@ def project_src(cmds):
     for c in cmds:
         generic = "<R: Runtime>" if any("<R>" in p[1] for p in c["params"]) else ""
         ps = ", ".join("%s%s: %s" % ("mut " if m else "", p[0], p[1]) for p, m in zip(c["params"], c["mut"]))
-        src.append("#[tauri::command]\npub async fn %s%s%s(%s) -> Result<(), String> {\n    todo!()\n}\n\n" % ("r#" if c.get("raw") else "", c["name"], generic, ps))
+        attr = "#[tauri::command]"
+        if c.get("macro_case"):
+            attr = ['#[tauri::command(rename_all = "%s")]', '#[tauri::command(async, rename_all = "%s")]', '#[tauri::command(rename_all = "%s", root = "crate")]'][c["macro_form"]] % c["macro_case"]
+        src.append("%s\npub async fn %s%s%s(%s) -> Result<(), String> {\n    todo!()\n}\n\n" % (attr, "r#" if c.get("raw") else "", c["name"], generic, ps))
     return [("lib.rs", "".join(src))]
 
 
@@ -259,7 +265,13 @@ def run(tier):
             v.case((sd, mode, case), nontrivial=True)
             v.violation("C04 %s commands.ts-does-not-parse %s" % (mode, r["parse_fault"][0]), r["parse_fault"][1], proj.witness_of(r["files"], mode, config=r["cfg"]))
             continue
+        cfg_case = case
         for (c, keys, how) in r["obs"]:
+            # the macro's rename_all, where given, is what Tauri applies to this command; otherwise the configured convention
+            case = c.get("macro_case") or cfg_case
+            mtag = " command-macro-rename_all" if c.get("macro_case") and c["macro_case"] != cfg_case else ""
+            if c.get("macro_case"):
+                v.count("commands_with_macro_rename_all")
             kinds = sorted({p[2] for p in c["params"]})
             v.case((sd, mode, case, c["name"]), nontrivial=len(c["params"]) >= 2,
                    sample={"command": c["name"], "params": [[p[0], p[1]] for p in c["params"]], "mode": mode, "case": case, "delivered_keys": sorted(keys) if keys else keys})
@@ -281,7 +293,7 @@ def run(tier):
                 alts = [x for x in acceptable_keys(p[0], case) if x in keys]
                 k = alts[0] if alts else k0
                 if k not in keys:
-                    v.violation("C04 %s case=%s missing-key kind=%s nameclass=%s" % (mode, case, p[2], name_class(p[0])),
+                    v.violation("C04 %s case=%s%s missing-key kind=%s nameclass=%s" % (mode, case, mtag, p[2], name_class(p[0])),
                                 "command %s: parameter `%s: %s` should be delivered under key %r; delivered keys: %s (%s)" % (c["name"], p[0], p[1], k, sorted(keys), how), wit)
                 elif p[2] == "value" and bool(keys[k]) != bool(opt):
                     v.violation("C04 %s optionality kind=value option=%s" % (mode, opt),
@@ -296,7 +308,7 @@ def run(tier):
                     for p in c["params"]:
                         if p[2] == "injected" and (k == p[0] or k.replace("_", "").lower() == p[0].replace("_", "").replace("r#", "").lower()):
                             origin = "injected:" + spelling_class(p[1])
-                    v.violation("C04 %s case=%s extra-key origin=%s" % (mode, case, origin),
+                    v.violation("C04 %s case=%s%s extra-key origin=%s" % (mode, case, mtag, origin),
                                 "command %s: key %r is delivered to invoke but no frontend-filled parameter has that name; expected %s" % (c["name"], k, sorted(exp)), wit)
     rule = ("a case is one command (0-6 parameters mixing value / channel / injected spellings, names over snake_case shapes) under one mode and one "
             "default_parameter_case; non-trivial = at least two parameters; distinct by (generator seed, mode, case, command)")
